@@ -74,11 +74,11 @@ PROPS = {
         classify=lambda row: "history",
     ),
     "C15": dict(
-        family="unit+cache",
+        family="unit+cache", xcheck=60,
         proof_files=["Proofs/C15Proofs.v", "Spec/SpecC15.v"],
-        trusted_base=TB_COMMON + ["server/verif_export.go (verif-tagged wrapper calling getRange, setRangedHeaders and the requestRange methods)"],
+        trusted_base=TB_COMMON + ["server/verif_export.go (verif-tagged wrapper calling getRange, setRangedHeaders and the requestRange methods)", "caching/verif_export.go hooks (VerifWaitIdle, VerifSetCreated) for the end-to-end histories"],
         assumptions=ASSUME_COMMON + ["offsets near the int64 limits wrap in Go and are not generated", "416 is accepted whenever the named range is not wholly inside the resource (lenient reading of 'lies outside')"],
-        rule="exhaustive: resource lengths 0..12 (0..24 thorough) x every a-b, a-, -s with values 0..14 (0..27) (the a-b grid thinned to a third in quick, keeping the diagonal and both boundaries) + 26 malformed / multi-range / signed / overflowing spellings per length + non-200 statuses + unknown length; each case runs the real getRange, setRangedHeaders, start/size arithmetic; non-trivial = the header is non-empty; distinct = distinct case encodings",
+        rule="(histories) for each length 0..12 and each origin framing (Content-Length / chunked): 14 fresh paths each requested with a random range on the miss and another on the hit (a-b, a-, -s with values 0..14, malformed spellings), HEAD with Range, and a plain request; (unit) exhaustive: resource lengths 0..12 (0..24 thorough) x every a-b, a-, -s with values 0..14 (0..27) (the a-b grid thinned to a third in quick, keeping the diagonal and both boundaries) + 26 malformed / multi-range / signed / overflowing spellings per length + non-200 statuses + unknown length; each case runs the real getRange, setRangedHeaders, start/size arithmetic; non-trivial = the header is non-empty; distinct = distinct case encodings",
         exhaustive=True,
         classify=lambda row: "range-unit",
     ),
